@@ -249,6 +249,14 @@ fn eval_prefixes(prog: &[E]) -> Eval {
                         return ev;
                     }
                 }
+                judged += 1;
+                match kx_compile(cut.trim_end_matches('\n')) {
+                    Err((_, true)) => {}
+                    other => {
+                        ev.fail = Some(Fail::new("c10:trailing-assign-at-eof-not-indentation-error", format!("program ending directly after a trailing `=` (no final newline) gives {other:?} instead of an indentation error\n--- prefix:\n{}", cut.trim_end_matches('\n'))));
+                        return ev;
+                    }
+                }
                 for op in [" + ", " - ", " * ", " and ", " or ", " == ", " < "] {
                     if let Some(p2) = cur[pos..].rfind(op) {
                         let p2 = pos + p2;
@@ -261,6 +269,16 @@ fn eval_prefixes(prog: &[E]) -> Eval {
                                 Err((_, true)) => {}
                                 other => {
                                     ev.fail = Some(Fail::new("c10:trailing-operator-not-indentation-error", format!("program cut after a trailing `{}` gives {other:?} instead of an indentation error\n--- prefix:\n{cut}", op.trim())));
+                                    return ev;
+                                }
+                            }
+                            // the same cut as a REPL sends it: the operator is the very last byte
+                            let bare = cut.trim_end_matches('\n');
+                            judged += 1;
+                            match kx_compile(bare) {
+                                Err((_, true)) => {}
+                                other => {
+                                    ev.fail = Some(Fail::new("c10:trailing-operator-at-eof-not-indentation-error", format!("program ending directly after a trailing `{}` (no final newline) gives {other:?} instead of an indentation error\n--- prefix:\n{bare}", op.trim())));
                                     return ev;
                                 }
                             }
